@@ -32,6 +32,10 @@ func init() {
 	registerGoLite(glGroup{id: "goliterdc05", out: "GoLiteRdC05.v", pkgDir: "bucketteer", funcs: rdFuncs, externs: rdExt})
 	registerGoLite(glGroup{id: "goliterdlc05", out: "GoLiteRdLC05.v", pkgDir: "deprecated/bucketteer", funcs: rdFuncs, externs: rdExt})
 	registerGoLite(glGroup{id: "goliterdmain", out: "GoLiteRdMain.v", pkgDir: ".", funcs: []glFunc{{name: "readFullAt"}}, externs: rdExt})
+	registerGoLite(glGroup{id: "golitec03", out: "GoLiteC03.v", pkgDir: ".",
+		funcs:   []glFunc{{name: "parseNodeFromSection"}},
+		externs: []string{"binary.Uvarint", "bytes.NewReader", "cid.CidFromReader", "*.Equals"},
+		consts:  map[string]string{"util.MaxAllowedSectionSize": "33554432"}})
 
 	registerGoLite(glGroup{id: "golitec01", out: "GoLiteC01.v", pkgDir: "indexes",
 		funcs: []glFunc{
@@ -75,6 +79,18 @@ func init() {
 			{recv: "BucketHeader", name: "readFrom"},
 		},
 		externs: []string{"io.SectionReader.ReadAt:out0", "io.ReaderAt.ReadAt:out0"}, hoist: true})
+	// (Bucket).Lookup: the key's hash, then the search whose entry getter is b.loadEntry (the binding is recorded in the
+	// generated file); searchEytzinger and Hash are the C04 terms, loadEntry is interpreted in the C13 program
+	registerGoLite(glGroup{id: "golitelkc04", out: "GoLiteLkC04.v", pkgDir: "compactindexsized",
+		funcs: []glFunc{
+			{name: "searchEytzinger"},
+			{recv: "BucketHeader", name: "Hash"},
+			{recv: "Bucket", name: "Lookup"},
+			{recv: "Bucket", name: "loadEntry"},
+			{recv: "BucketDescriptor", name: "unmarshalEntry"},
+			{name: "uintLe"},
+		},
+		externs: []string{"EntryHash64", "io.SectionReader.ReadAt:out0"}})
 	registerGoLite(glGroup{id: "golitebt", out: "GoLiteBT.v", pkgDir: "blocktimeindex",
 		funcs:   []glFunc{{recv: "Index", name: "Get"}, {recv: "Index", name: "Set"}, {name: "blocktimeToBytes"}},
 		externs: []string{"NewErrSlotOutOfRange"}})
